@@ -1,0 +1,198 @@
+//! Read-only observation hooks for external runtime monitors.
+//!
+//! This module only exists if the cargo feature `verif_hooks` is enabled. It is off by default and
+//! has no influence on the behaviour of the crate. It exposes
+//!
+//! * a dump of the compiled automata of a [crate::Scanner] (H1),
+//! * a recorder for the automata handed to and returned by the minimizer (H2),
+//! * a log of the lookups in the global scanner cache (H3).
+use std::cell::RefCell;
+use std::sync::atomic::{AtomicBool, AtomicU64, Ordering};
+use std::sync::Mutex;
+
+use crate::internal::compiled_dfa::CompiledDfa;
+use crate::Scanner;
+
+/// A plain copy of a compiled automaton.
+#[derive(Debug, Clone, PartialEq, Eq)]
+pub struct AutomatonDump {
+    /// The pattern texts as stored in the automaton (debug information of the crate).
+    pub patterns: Vec<String>,
+    /// The token types in priority order.
+    pub terminal_ids: Vec<u32>,
+    /// For each state its transitions as pairs of character class id and target state.
+    pub states: Vec<Vec<(u32, u32)>>,
+    /// For each state the token type it accepts, if it is accepting.
+    pub accepting: Vec<Option<u32>>,
+    /// The lookaheads as (token type, is_positive, automaton).
+    pub lookaheads: Vec<(u32, bool, AutomatonDump)>,
+}
+
+/// A plain copy of a compiled scanner mode.
+#[derive(Debug, Clone, PartialEq, Eq)]
+pub struct ModeDump {
+    /// The name of the mode.
+    pub name: String,
+    /// The transitions as pairs of token type and target mode.
+    pub transitions: Vec<(u32, usize)>,
+    /// The compiled automaton of the mode.
+    pub automaton: AutomatonDump,
+}
+
+/// A lookup in the global scanner cache.
+#[derive(Debug, Clone, Copy, PartialEq, Eq)]
+pub struct CacheEvent {
+    /// Global sequence number, taken while the cache lock is held.
+    pub seq: u64,
+    /// A number identifying the thread that did the lookup.
+    pub thread: u64,
+    /// True if the configuration was found in the cache.
+    pub hit: bool,
+    /// Number of entries in the cache at the time of the lookup.
+    pub entries: usize,
+}
+
+pub(crate) fn dump_automaton(dfa: &CompiledDfa) -> AutomatonDump {
+    let mut lookaheads: Vec<(u32, bool, AutomatonDump)> = dfa
+        .lookaheads
+        .iter()
+        .map(|(t, l)| (t.id(), l.is_positive, dump_automaton(&l.nfa)))
+        .collect();
+    lookaheads.sort_by_key(|l| l.0);
+    AutomatonDump {
+        patterns: dfa.patterns.clone(),
+        terminal_ids: dfa.terminal_ids.iter().map(|t| t.id()).collect(),
+        states: dfa
+            .states
+            .iter()
+            .map(|s| s.transitions.iter().map(|(c, t)| (c.id(), t.id())).collect())
+            .collect(),
+        accepting: dfa
+            .end_states
+            .iter()
+            .map(|(a, t)| if *a { Some(t.id()) } else { None })
+            .collect(),
+        lookaheads,
+    }
+}
+
+impl Scanner {
+    /// Returns a copy of the compiled automata of all modes.
+    pub fn verif_dump(&self) -> Vec<ModeDump> {
+        self.inner
+            .scanner_modes
+            .iter()
+            .map(|m| ModeDump {
+                name: m.name.clone(),
+                transitions: m
+                    .transitions
+                    .iter()
+                    .map(|(t, m)| (t.id(), m.as_usize()))
+                    .collect(),
+                automaton: dump_automaton(&m.dfa),
+            })
+            .collect()
+    }
+
+    /// Returns the number of registered character classes.
+    pub fn verif_class_count(&self) -> usize {
+        self.inner.character_classes.len()
+    }
+
+    /// Evaluates the scanner's match function for a registered character class.
+    /// Returns None if the class id is not registered.
+    pub fn verif_class_matches(&self, class_id: usize, c: char) -> Option<bool> {
+        if class_id < self.inner.character_classes.len() {
+            Some((self.inner.match_char_class)(
+                (class_id as u32).into(),
+                c,
+            ))
+        } else {
+            None
+        }
+    }
+
+    /// Returns the source text of a registered character class.
+    pub fn verif_class_source(&self, class_id: usize) -> Option<String> {
+        self.inner
+            .character_classes
+            .character_classes()
+            .get(class_id)
+            .map(|cc| cc.ast().to_string())
+    }
+}
+
+thread_local! {
+    static MINIMIZER_ARMED: RefCell<bool> = const { RefCell::new(false) };
+    static MINIMIZER_PENDING: RefCell<Vec<AutomatonDump>> = const { RefCell::new(Vec::new()) };
+    static MINIMIZER_LOG: RefCell<Vec<(AutomatonDump, AutomatonDump)>> =
+        const { RefCell::new(Vec::new()) };
+}
+
+/// Switches the recording of minimizer calls of the current thread on or off.
+pub fn minimizer_arm(on: bool) {
+    MINIMIZER_ARMED.with(|a| *a.borrow_mut() = on);
+    if !on {
+        MINIMIZER_PENDING.with(|p| p.borrow_mut().clear());
+    }
+}
+
+/// Takes the recorded (before, after) pairs of the current thread.
+pub fn minimizer_take() -> Vec<(AutomatonDump, AutomatonDump)> {
+    MINIMIZER_LOG.with(|l| std::mem::take(&mut *l.borrow_mut()))
+}
+
+pub(crate) fn minimizer_entry(dfa: &CompiledDfa) {
+    if MINIMIZER_ARMED.with(|a| *a.borrow()) {
+        MINIMIZER_PENDING.with(|p| p.borrow_mut().push(dump_automaton(dfa)));
+    }
+}
+
+pub(crate) fn minimizer_exit(dfa: &CompiledDfa) {
+    if MINIMIZER_ARMED.with(|a| *a.borrow()) {
+        if let Some(before) = MINIMIZER_PENDING.with(|p| p.borrow_mut().pop()) {
+            MINIMIZER_LOG.with(|l| l.borrow_mut().push((before, dump_automaton(dfa))));
+        }
+    }
+}
+
+static CACHE_LOG_ON: AtomicBool = AtomicBool::new(false);
+static CACHE_SEQ: AtomicU64 = AtomicU64::new(0);
+static CACHE_LOG: Mutex<Vec<CacheEvent>> = Mutex::new(Vec::new());
+static THREAD_COUNTER: AtomicU64 = AtomicU64::new(0);
+
+thread_local! {
+    static THREAD_NO: u64 = THREAD_COUNTER.fetch_add(1, Ordering::Relaxed);
+}
+
+/// Switches the recording of cache lookups on or off (process wide).
+pub fn cache_log_arm(on: bool) {
+    CACHE_LOG_ON.store(on, Ordering::SeqCst);
+}
+
+/// Takes the recorded cache lookups.
+pub fn cache_log_take() -> Vec<CacheEvent> {
+    std::mem::take(&mut *CACHE_LOG.lock().unwrap_or_else(|e| e.into_inner()))
+}
+
+/// Returns the number identifying the current thread in [CacheEvent]s.
+pub fn thread_no() -> u64 {
+    THREAD_NO.with(|t| *t)
+}
+
+// Called while the cache lock is held, thus the order of the log is the order of the lock.
+pub(crate) fn cache_event(hit: bool, entries: usize) {
+    if CACHE_LOG_ON.load(Ordering::SeqCst) {
+        let seq = CACHE_SEQ.fetch_add(1, Ordering::SeqCst);
+        let thread = thread_no();
+        CACHE_LOG
+            .lock()
+            .unwrap_or_else(|e| e.into_inner())
+            .push(CacheEvent {
+                seq,
+                thread,
+                hit,
+                entries,
+            });
+    }
+}
